@@ -1,4 +1,5 @@
 import AffVerif.Proofs.ElimShape
+import AffVerif.Proofs.PruneShapeP
 import AffVerif.Props.C08
 /-!
 # C04 — every operation history keeps a tree well-formed and usable
@@ -9,10 +10,9 @@ is read as a terminal map — in particular a decision never loses all its child
 of every evaluation theorem (C02, C03, C07, C08) and of "the next dimension-compatible operation does not panic"
 (the model operations are total; the dimension guards the code asserts are exactly the hypotheses below).
 
-Proved: the step theorems for `apply_func`, un-pruned `compose`, `infeasible_elimination` (for every solver
-behaviour), `reduce`, negation and the mixed tree/affine operators, the constructors, and their closure under
-histories.  Open (checked by the correspondence on every history, not yet proved): pruned composition and the
-tree-tree operators, whose result shape is that of `graftP`.
+Proved: the step theorems for `apply_func`, un-pruned and pruned `compose` (for every `explore` filter, i.e. every
+solver behaviour), the four tree-tree operators, `infeasible_elimination` (for every solver behaviour), `reduce`,
+negation and the mixed tree/affine operators, the constructors, and their closure under histories.
 -/
 set_option linter.unusedSectionVars false
 set_option linter.unusedVariables false
@@ -28,6 +28,20 @@ theorem C04_apply_func (t : PT α) (a : Aff α) (K n : Nat) (ha : a.WF) (ht : PT
 theorem C04_compose (f g : PT α) (c : Nat) (K n m p : Nat) (hf : PT.Shaped K n m f) (hg : PT.Shaped K m p g) :
     PT.Shaped K n p (PT.composeS Schema.compose f g c).1 :=
   PT.shaped_composeS f g c K n m p hf hg
+
+/-- `compose::<true>`: well formed for every `explore` filter — no hypothesis on the LP backend -/
+theorem C04_compose_prune {σ : Type} (ex : Explore σ α) (f g : PT α) (s : σ) (c : Nat) (K n m p : Nat)
+    (path : List (Aff α)) (hf : PT.Shaped K n m f) (hg : PT.Shaped K m p g) :
+    PT.Shaped K n p (PT.composeP Schema.compose ex n path f g s c).1 :=
+  PT.shaped_composeP Schema.compose ex n path f g s c K m m p p
+    (fun t ht hi ho => by have := schemaShaped_compose t ht p; rw [hi, ho] at this; exact this) hf hg
+
+/-- the tree-tree operators `+ - * /` (always pruned): operands over the same inputs with the same number of outputs -/
+theorem C04_arith_prune {σ : Type} (op : ArithOp) (ex : Explore σ α) (f g : PT α) (s : σ) (c : Nat) (K n m : Nat)
+    (path : List (Aff α)) (hf : PT.Shaped K n m f) (hg : PT.Shaped K n m g) :
+    PT.Shaped K n m (PT.composeP (Schema.arith op.onAff) ex n path f g s c).1 :=
+  PT.shaped_composeP (Schema.arith op.onAff) ex n path f g s c K m n m m
+    (fun t ht hi ho => by have := schemaShaped_arith op t ht; rw [hi, ho] at this; exact this) hf hg
 
 /-- no hypothesis on the LP backend or on `mirror_points`: well-formedness does not depend on the solver being right -/
 theorem C04_elim {σ : Type} (tol : α) (O : Oracles σ α) (n m : Nat) (t : PT α) (s : σ) (h : PT.Shaped 2 n m t) :
@@ -115,6 +129,10 @@ inductive HStep (n : Nat) : Nat → PT α → Nat → PT α → Prop where
       HStep n m t a.outdim (PT.applyFunc t a)
   | compose (m p : Nat) (t g : PT α) (c : Nat) (hg : PT.Shaped 2 m p g) :
       HStep n m t p (PT.composeS Schema.compose t g c).1
+  | composePrune {σ : Type} (m p : Nat) (t g : PT α) (ex : Explore σ α) (s : σ) (c : Nat) (hg : PT.Shaped 2 m p g) :
+      HStep n m t p (PT.composeP Schema.compose ex n [] t g s c).1
+  | arith {σ : Type} (m : Nat) (t g : PT α) (op : ArithOp) (ex : Explore σ α) (s : σ) (c : Nat)
+      (hg : PT.Shaped 2 n m g) : HStep n m t m (PT.composeP (Schema.arith op.onAff) ex n [] t g s c).1
   | elim {σ : Type} (m : Nat) (t : PT α) (tol : α) (O : Oracles σ α) (s : σ) :
       HStep n m t m (infeasibleElimination tol O n t s).1
   | reduce (m : Nat) (t : PT α) : HStep n m t m (PT.reduce t)
@@ -125,6 +143,8 @@ theorem C04_step_shaped (n m m' : Nat) (t t' : PT α) (h : PT.Shaped 2 n m t) (s
   cases st with
   | applyFunc _ _ a ha hm => subst hm; exact C04_apply_func t a 2 n ha h
   | compose _ _ _ g c hg => exact C04_compose t g c 2 n m m' h hg
+  | composePrune _ _ _ g ex s c hg => exact C04_compose_prune ex t g s c 2 n m m' [] h hg
+  | arith _ _ g op ex s c hg => exact C04_arith_prune op ex t g s c 2 n m [] h hg
   | elim _ _ tol O s => exact C04_elim tol O n m t s h
   | reduce => exact C04_reduce t 2 n m h
   | neg => exact C04_neg t 2 n m h
